@@ -67,7 +67,12 @@ def render_main(case: dict, pkg: str) -> str:
             params = ", ".join(first + SIG_TEXT[k["sig"]])
             lines.append(f"{ind}{'async ' if k['async'] else ''}def {k['n']}({params}):")
             lines += _doc_stmt(k["doc"], ind + "    ")
-            lines.append(ind + "    " + ("self.q = 1" if k["inst"] else "pass"))
+            tgt = k["what"] if k["what"] != "-" else "q"
+            lines.append(ind + "    " + (f"self.{tgt} = 1" if k["inst"] else "pass"))
+        elif t == "setter":
+            lines.append(f"{ind}@{k['n']}.setter")
+            lines.append(f"{ind}def {k['n']}(self, v):")
+            lines.append(ind + "    pass")
         elif t == "class":
             chain = k.get("chain", "-")
             expr = k["base"] if chain == "-" else chain.replace("pkg.", pkg + ".", 1) if chain.startswith("pkg.") else chain
